@@ -343,6 +343,14 @@ def _symbolic_for(interp, s, frame, state, space):
                 hv_funcs.add(t.decl().name())
             else:
                 hv_consts.add(t.get_id())
+    # objects whose scalar attributes advance per iteration (e.g. a reading position): their closed form at iteration i is
+    # taken from the first run and used as the pre-state of the second one, so that values computed from them are expressed
+    # in the loop index (validated, like every summary, by the step obligation)
+    obj_summ = {}
+    for sid in other_touched:
+        if pre_heap[sid].kind == "obj":
+            obj_summ[sid] = _summarise_cell(interp, sid, pre_heap[sid], heap_h, st1, iz_early(i), lo, hi, hv_consts, hv_funcs)
+            heap_h[sid] = obj_summ[sid](i)
     if arr_h or other_touched:
         outs = run_body(env_h, heap_h, i, [])
         normal = [(fr, st2) for fr, st2, out in outs if out[0] in ("normal", "continue")]
@@ -378,6 +386,9 @@ def _symbolic_for(interp, s, frame, state, space):
         prev = hfn(idx)
         summary_heap[sid] = _summarise_array(sid, shape, dt, idx, prev, postv, iz, lo, hi, hv_consts, hv_funcs, pre_heap)
     for sid in other_touched:
+        if sid in obj_summ:
+            summary_heap[sid] = obj_summ[sid]
+            continue
         summary_heap[sid] = _summarise_cell(interp, sid, pre_heap[sid], heap_h, st1, iz, lo, hi, hv_consts, hv_funcs)
     # ---- build state(k) and check init / step
     def state_at(k):
@@ -422,7 +433,8 @@ def _symbolic_for(interp, s, frame, state, space):
             for g in _eq_goals(a, b):
                 goals.append(z3.Implies(z3.And(*rng) if rng else z3.BoolVal(True), g))
         else:
-            goals.extend(_cell_eq_goals(st2.heap[sid], heap_n[sid]))
+            with use_state(st2):      # arrays held by the cells live in the heap of the step run
+                goals.extend(_cell_eq_goals(st2.heap[sid], heap_n[sid]))
     assum = st2.all_assumptions()
     for g in goals:     # one query per carried variable / array cell (small queries)
         st.side.append(_SideGoal("loop-step", g, assum, where))
@@ -463,6 +475,10 @@ def _symbolic_for(interp, s, frame, state, space):
 
 
 _MISSING = object()
+
+
+def iz_early(i):
+    return i.t
 
 
 def _loop_ordinal(frame, s):
@@ -520,7 +536,18 @@ def _eq_goals(a, b):
     if isinstance(a, A.Arr) and isinstance(b, A.Arr):
         if a.sid == b.sid:
             return []
-        return [z3.BoolVal(False)]
+        # different storages (e.g. arrays appended to a list by two executions of a loop body): equal shape, equal elements
+        sa, sb = a.shape, b.shape
+        if len(sa) != len(sb):
+            return [z3.BoolVal(False)]
+        goals = []
+        for x, y in zip(sa, sb):
+            goals.extend(_eq_goals(x, y))
+        idx = tuple(sv.fresh_int("e") for _ in sa)
+        rng = [sv.zb(sv.and_(sv.cmp(">=", x, 0), sv.cmp("<", x, d))) for x, d in zip(idx, sa)]
+        for g in _eq_goals(a.get(idx), b.get(idx)):
+            goals.append(z3.Implies(z3.And(*rng), g) if rng else g)
+        return goals
     if a is b:
         return []
     if isinstance(a, Ref) and isinstance(b, Ref) and a.sid == b.sid:
@@ -571,6 +598,38 @@ def _summarise_array(sid, shape, dt, idx, prev, postv, iz, lo, hi, hv_consts, hv
     pre_fn = pre_heap[sid].data
     meta = pre_heap[sid].meta
     idz = [x.t for x in idx]
+    # (1a) guarded accumulation  A[x] += [cond(i, x)] e(i, x):
+    #   cond independent of i           ->  A[x] = A0[x] + [cond(x)] Σ_t e(t, x)          (guard hoisted out of the sum)
+    #   cond contains x_k == i + c      ->  A[x] = A0[x] + [lo <= w(x) < k, residual] e(w(x), x)   (Kronecker-delta collapse)
+    # both are closed forms of the same sum; like every summary they are validated by the loop:init / loop:step obligations
+    dec = _decompose_store(postv, prev)
+    if dec is not None:
+        cond, val = dec
+        inc = _subst_val(sv.sub(val, prev), [])
+        its = _terms_of(inc) + [cond]
+        if not any(_contains_any(t, hv_consts, hv_funcs) for t in its):
+            if not _mentions(cond, iz):
+                def at(k):
+                    def fn(ix, k=k):
+                        pairs = [(a, sv.znum(b)) for a, b in zip(idz, ix)]
+                        c = sv.wrap(z3.simplify(z3.substitute(cond, *pairs)))
+                        tot = lambda: Sum(lo, k, lambda t: _subst_val(inc, pairs + [(iz, sv.znum(t))]))
+                        return sv.add(pre_fn(ix), ite(c, tot, 0))
+                    return Content("arr", A._memo(fn), meta)
+                return at
+            sol = _solve_writer(cond, iz, idz)
+            if sol is not None:
+                w, residual = sol
+
+                def at(k):
+                    def fn(ix, k=k):
+                        pairs = [(a, sv.znum(b)) for a, b in zip(idz, ix)]
+                        wk = z3.simplify(z3.substitute(w, *pairs))
+                        c = z3.And(wk >= sv.znum(lo), wk < sv.znum(k), z3.substitute(residual, *pairs))
+                        v = lambda: _subst_val(_subst_val(inc, [(iz, w)]), pairs)
+                        return sv.add(pre_fn(ix), ite(sv.wrap(z3.simplify(c)), v, 0))
+                    return Content("arr", A._memo(fn), meta)
+                return at
     # (1) accumulation: post - prev free of havoc
     delta = sv.sub(postv, prev)
     dts = [z3.simplify(t) for t in _terms_of(delta)]
@@ -602,6 +661,9 @@ def _summarise_array(sid, shape, dt, idx, prev, postv, iz, lo, hi, hv_consts, hv
                         return ite(sv.wrap(z3.simplify(c)), v, lambda: pre_fn(ix))
                     return Content("arr", A._memo(fn), meta)
                 return at
+    import os
+    if os.environ.get("PYVC_DEBUG_LOOPS"):
+        print("LOOP-DEBUG post:", str(postv)[:1500], "\nprev:", str(prev)[:300])
     raise EngineError(f"array #{sid}: loop effect is neither an accumulation nor an affine scatter store — needs a written summary")
 
 
@@ -681,6 +743,25 @@ def _summarise_cell(interp, sid, pre_cell, heap_h, st1, iz, lo, hi, hv_consts, h
         if not isinstance(pre, A.SeqVal) and not isinstance(post, A.SeqVal):
             k0 = len(pre)
             added = post[k0:]
+            if tuple(post[:k0]) == tuple(pre) and len(added) == 1 and k0 == 0 and isinstance(added[0], A.Arr) \
+                    and added[0].sid not in heap_h and added[0].view is None:
+                # one freshly allocated array appended per iteration: element p of the list is that array with the loop
+                # index set to lo + p (its content must not depend on loop-carried state; checked by the step obligation,
+                # which compares the appended array element-wise with the claimed one)
+                v0 = added[0]
+                cell = st1.heap[v0.sid]
+                probe_idx = tuple(sv.fresh_int("q") for _ in cell.meta["shape"])
+                if any(_contains_any(t, hv_consts, hv_funcs) for t in _terms_of(cell.data(probe_idx))):
+                    raise EngineError("appended array depends on loop-carried state")
+
+                def at(k, v0=v0):
+                    length = A.simp(sv.sub(k, lo))
+
+                    def fn(p):
+                        t = sv.znum(A.simp(sv.add(lo, p)))
+                        return _rebind_obj(v0, st1, cur(), iz, t, force=True)
+                    return Content("list", A.SeqVal(length, fn), pre_cell.meta)
+                return at
             if tuple(post[:k0]) == tuple(pre) and len(added) >= 1 and all(sv.is_scalar(norm(x)) for x in added):
                 m = len(added)
                 for x in added:
@@ -707,6 +788,32 @@ def _summarise_cell(interp, sid, pre_cell, heap_h, st1, iz, lo, hi, hv_consts, h
                     return Content("list", A.SeqVal(length, fn), pre_cell.meta)
                 return at
         raise EngineError("list mutated in a symbolic loop in an unsupported way")
+    if pre_cell.kind == "obj":
+        pre, post = pre_cell.data, post_cell.data
+        deltas = {}
+        for name in post:
+            if name in pre and (post[name] is pre[name] or (is_conc(norm(post[name])) if sv.is_scalar(norm(post[name])) else False)
+                                and sv.is_scalar(norm(pre[name])) and is_conc(norm(pre[name])) and norm(post[name]) == norm(pre[name])):
+                continue
+            if name not in pre or not sv.is_scalar(norm(pre[name])) or not sv.is_scalar(norm(post[name])):
+                raise EngineError(f"object attribute {name!r} modified in a symbolic loop (not a scalar accumulation)")
+            d = sv.sub(post[name], pre[name])
+            if any(_contains_any(t, hv_consts, hv_funcs) for t in _terms_of(d)):
+                raise EngineError(f"object attribute {name!r}: increment depends on loop-carried state")
+            deltas[name] = d
+        if set(pre) - set(post):
+            raise EngineError("object attribute deleted in a symbolic loop")
+
+        def at(k):
+            data = dict(pre)
+            for name, d in deltas.items():
+                if any(_mentions(t, iz) for t in _terms_of(d)):
+                    inc = Sum(lo, k, lambda t: _subst_val(d, [(iz, sv.znum(t))]))
+                else:
+                    inc = sv.mul(d, A.simp(sv.sub(k, lo)))
+                data[name] = A.simp(sv.add(pre[name], inc))
+            return Content("obj", data, pre_cell.meta)
+        return at
     if pre_cell.kind == "df":
         from .pandas_model import summarise_df_cell
         return summarise_df_cell(interp, sid, pre_cell, post_cell, heap_h, st1, iz, lo, hi, hv_consts, hv_funcs)
@@ -727,6 +834,15 @@ def _cell_eq_goals(a, b):
             for g in _eq_goals(fa(p), fb(p)):
                 goals.append(z3.Implies(rng, g))
         return goals
+    if a.kind == "obj" and b.kind == "obj":
+        if set(a.data) != set(b.data):
+            return [z3.BoolVal(False)]
+        goals = []
+        for name in a.data:
+            if a.data[name] is b.data[name]:
+                continue
+            goals.extend(_eq_goals(a.data[name], b.data[name]))
+        return goals
     if a.kind == "df" and b.kind == "df":
         from .pandas_model import df_cell_eq_goals
         return df_cell_eq_goals(a, b, _eq_goals)
@@ -743,12 +859,12 @@ def _import_last_iteration_cells(fr1, st1, st, iz, hi, summary_env, frame):
         frame.env[name] = _rebind_obj(v, st1, st, iz, last)
 
 
-def _rebind_obj(v, st1, st, iz, last):
+def _rebind_obj(v, st1, st, iz, last, force=False):
     if isinstance(v, A.Arr):
         c = st1.heap.get(v.sid)
         if c is None:
             return v
-        if v.sid in st.heap and st.heap[v.sid] is c:
+        if v.sid in st.heap and st.heap[v.sid] is c and not force:
             return v
         fn = c.data
 
